@@ -146,6 +146,28 @@ type RecDag struct {
 	Tail *RecDag `json:"tail,omitempty"`
 }
 
+// RecDagI: shared (not cyclic) nodes whose interface members hold nil pointers and nil interfaces,
+// and RecIfaceFirst / RecIfaceFirstV: the interface is the first member, so its address is the
+// address of the struct (by pointer and by value inside a slice).
+type RecDagI struct {
+	ID   int         `json:"id"`
+	V    interface{} `json:"v"`
+	Side *RecDagI    `json:"side,omitempty"`
+	W    interface{} `json:"w,omitempty"`
+	Next *RecDagI    `json:"next,omitempty"`
+}
+
+type RecIfaceFirst struct {
+	V    interface{}
+	Next *RecIfaceFirst
+}
+
+type RecIfaceFirstV struct {
+	V    Shaper
+	Kids []RecIfaceFirstV
+	N    int
+}
+
 // Distinct recursive types whose first members have the same Go type, reachable from one root.
 type RecDag2 struct {
 	ID    int      `json:"id"`
